@@ -85,6 +85,9 @@ func c11Large(c *lib.Ctx, idx uint64) {
 }
 
 func c11Run(c *lib.Ctx, rng *lib.Rand, idx uint64, nfiles int, large bool) {
+	// the cache of partial expectations is only useful within one stream (and would otherwise
+	// hold thousands of decoded messages per entry for the large streams)
+	partialCache = map[partialKey]*lib.Expectation{}
 	var files []c11File
 	var stream []byte
 	var bounds []int // end offset of each file within stream
@@ -310,7 +313,7 @@ func partialOK(c *lib.Ctx, stream []byte, where string, f c11File, cut int, got 
 			c.Violation(stream, "harness: model failed: %v", err)
 			return false
 		}
-		if len(partialCache) > 4000 {
+		if len(partialCache) > 8 { // offsets come in increasing order: only the latest few prefixes are asked for again
 			partialCache = map[partialKey]*lib.Expectation{}
 		}
 		partialCache[ck] = ex
